@@ -17,6 +17,11 @@ package c12
 //   * walk error != nil  <=>  some reached failure is not swallowed by the option chain, and the
 //     returned error is one the chain can produce;
 //   * the provider is asked for reached nodes only, and for every reached node that was fetched;
+//     the provider's StartProviding may fail (always, or for a generated subset of the nodes):
+//     announcing is a side effect of the walk ("calls StartProviding() on every fetched node"),
+//     so a failing provider changes neither the visited set, the fetched blocks, the handler
+//     invocations nor the walk's result, and its error is never what the walk returns or what
+//     an error handler is given;
 //   * every option list terminates (also: no concurrent visit calls, as documented). The walk gets
 //     a context WITHOUT deadline (a deadline would release workers that wait for the caller's
 //     context and so hide a stuck walk). A walk that has not returned after a second is probed
@@ -85,11 +90,13 @@ type NodeSpec struct {
 	V1    bool   `json:"v1,omitempty"`    // CIDv1 for pb nodes
 	State string `json:"state"`           // remote | local | missing | corrupt
 	Links []int  `json:"links,omitempty"` // indices of children (always larger than own index)
+	// ProvErr: a provider with Arg "failsome" returns an error when asked to announce this node
+	ProvErr bool `json:"proverr,omitempty"`
 }
 
 type Opt struct {
 	Kind string `json:"kind"`          // skiproot | ignoreerrors | ignoremissing | onmissing | onerror | provider
-	Arg  string `json:"arg,omitempty"` // onerror: pass | swallow | replace | swallownf
+	Arg  string `json:"arg,omitempty"` // onerror: pass | swallow | replace | swallownf; provider: "" (never fails) | failall | failsome
 }
 
 type Case struct {
@@ -279,7 +286,20 @@ func gen(t *rapid.T) Case {
 		c.Opts = append(c.Opts, Opt{Kind: "skiproot"})
 	}
 	if rapid.Bool().Draw(t, "provider") {
-		c.Opts = append(c.Opts, Opt{Kind: "provider"})
+		// a provider is a network-facing component; its StartProviding may fail for every call
+		// or for some of the nodes (leaves and interior nodes, early and late in the traversal)
+		o := Opt{Kind: "provider", Arg: rapid.SampledFrom([]string{"", "failsome", "failall", "failsome"}).Draw(t, "provfail")}
+		if o.Arg == "failsome" {
+			some := false
+			for i := range c.Nodes {
+				c.Nodes[i].ProvErr = rapid.IntRange(0, 2).Draw(t, "proverr") == 0
+				some = some || c.Nodes[i].ProvErr
+			}
+			if !some {
+				c.Nodes[rapid.IntRange(0, n-1).Draw(t, "proverridx")].ProvErr = true
+			}
+		}
+		c.Opts = append(c.Opts, o)
 	}
 	if len(c.Opts) > 1 {
 		c.Opts = rapid.Permutation(c.Opts).Draw(t, "optorder")
@@ -481,16 +501,17 @@ func reference(c Case, b *built) *refModel {
 // running the walk
 
 type observed struct {
-	mu        sync.Mutex
-	visitTrue map[cid.Cid]bool
-	visitArgs []string // problems found inside visit
-	overlap   bool
-	hcalls    []map[string]bool // per option: "<cidkey>/<token>"
-	hnil      []map[string]bool // onerror invocations with a nil error: "<cidkey>"
-	provided  map[string]int    // multihash -> count
-	err       error
-	deadlock  string // the walk's goroutines are all parked for good (see probeWalk)
-	hang      string // no deadlock picture, but still running after hardLimit
+	mu         sync.Mutex
+	visitTrue  map[cid.Cid]bool
+	visitArgs  []string // problems found inside visit
+	overlap    bool
+	hcalls     []map[string]bool // per option: "<cidkey>/<token>"
+	hnil       []map[string]bool // onerror invocations with a nil error: "<cidkey>"
+	provided   map[string]int    // multihash -> count
+	provFailed int               // StartProviding calls that returned errProvider
+	err        error
+	deadlock   string // the walk's goroutines are all parked for good (see probeWalk)
+	hang       string // no deadlock picture, but still running after hardLimit
 }
 
 var replErrs = func() []error {
@@ -507,6 +528,8 @@ func token(err error) string {
 		return ""
 	case errors.Is(err, context.DeadlineExceeded) || errors.Is(err, context.Canceled):
 		return "ctx"
+	case errors.Is(err, errProvider):
+		return "prov" // never a token the option chain can produce
 	}
 	for i, r := range replErrs {
 		if errors.Is(err, r) {
@@ -519,13 +542,30 @@ func token(err error) string {
 	return "other"
 }
 
-type recProvider struct{ o *observed }
+// errProvider is what a failing provider returns from StartProviding.
+var errProvider = errors.New("provider: cannot announce (generated provider failure)")
+
+// recProvider records every multihash it is asked to announce; failAll / failFor (multihashes
+// of the nodes with ProvErr) make StartProviding return errProvider after recording.
+type recProvider struct {
+	o       *observed
+	failAll bool
+	failFor map[string]bool
+}
 
 func (p recProvider) StartProviding(force bool, keys ...mh.Multihash) error {
 	p.o.mu.Lock()
 	defer p.o.mu.Unlock()
+	fail := p.failAll
 	for _, k := range keys {
 		p.o.provided[string(k)]++
+		if p.failFor[string(k)] {
+			fail = true
+		}
+	}
+	if fail {
+		p.o.provFailed++
+		return errProvider
 	}
 	return nil
 }
@@ -655,7 +695,16 @@ func execute(c Case, b *built) *observed {
 				return err
 			}))
 		case "provider":
-			opts = append(opts, merkledag.WithProvider(recProvider{o}))
+			p := recProvider{o: o, failAll: op.Arg == "failall"}
+			if op.Arg == "failsome" {
+				p.failFor = map[string]bool{}
+				for i, nd := range c.Nodes {
+					if nd.ProvErr {
+						p.failFor[string(b.cids[i].Hash())] = true
+					}
+				}
+			}
+			opts = append(opts, merkledag.WithProvider(p))
 		}
 	}
 	var busy int32
@@ -1049,6 +1098,9 @@ func runOnce(c Case) kit.Result {
 
 	// walk error
 	tk := token(o.err)
+	if tk == "prov" {
+		bad("walk returned the error of the provider's StartProviding (announcing is a side effect; %d of the provider's calls failed)", o.provFailed)
+	}
 	if ref.fatal {
 		if o.err == nil {
 			bad("walk returned nil although a reached failure is not handled: %s", describeFatal(ref, b))
@@ -1270,6 +1322,12 @@ func runOnce(c Case) kit.Result {
 	}
 	if hasProv {
 		cls = append(cls, "provider")
+		if o.provFailed > 0 {
+			cls = append(cls, "provider-failed")
+			if !par {
+				cls = append(cls, "provider-failed-seq")
+			}
+		}
 	}
 	if c.Depth >= 0 {
 		cut := false
@@ -1545,7 +1603,7 @@ func run0(c Case) kit.Result {
 
 var spec = kit.Spec[Case]{
 	Prop: "C12", Name: "main",
-	Rule:  "random DAG (<=30, thorough <=40 nodes; dag-pb + raw leaves; sharing; missing/undecodable/already-local blocks) walked by Walk/WalkDepth/FetchGraph/FetchGraphWithDepthLimit with depth -1..6, concurrency none/default/1..32 and an ordered list of 0..3 error-handling options plus SkipRoot/WithProvider (failure placement: none / 1-2 / every 8th node / several children of one node; optionally failing fetches held until two are pending), compared with a reference BFS, termination judged by a goroutine-dump deadlock probe; non-trivial = a failing block is reached, or >=2 error-handling options are composed, or a node is linked at two different depths",
+	Rule:  "random DAG (<=30, thorough <=40 nodes; dag-pb + raw leaves; sharing; missing/undecodable/already-local blocks) walked by Walk/WalkDepth/FetchGraph/FetchGraphWithDepthLimit with depth -1..6, concurrency none/default/1..32 and an ordered list of 0..3 error-handling options plus SkipRoot/WithProvider (failure placement: none / 1-2 / every 8th node / several children of one node; optionally failing fetches held until two are pending; the provider never fails / fails always / fails for a generated subset of nodes), compared with a reference BFS, termination judged by a goroutine-dump deadlock probe; non-trivial = a failing block is reached, or >=2 error-handling options are composed, or a node is linked at two different depths",
 	Quick: 1500, Thorough: 12000,
 	Gen: gen, Run: run, Journal: true,
 }
